@@ -68,3 +68,47 @@ func vs_dat(ds SpecDifferences, i int, c SpecChangeCode) bool {
 func vs_noNone(ds []TypeDiff) bool {
 	return vs_all(func(k int) bool { return 0 <= k && k < len(ds) ==> ds[k].Change != NoChangeDetected })
 }
+
+// vs_sameSimple: the two simple schemas agree on every attribute compareSimpleSchema looks at.
+func vs_sameSimple(a, b *spec.SimpleSchema) bool {
+	return a.Nullable == b.Nullable && a.CollectionFormat == b.CollectionFormat && a.Default == b.Default && a.Example == b.Example
+}
+
+// vs_hasBreaking: some entry at an index >= from is classified Breaking.
+func vs_hasBreaking(ds SpecDifferences, from int) bool {
+	return vs_any(func(i int) bool { return from <= i && i < len(ds) && ds[i].Compatibility == Breaking })
+}
+
+func vs_brk(ds SpecDifferences, i int) bool {
+	return 0 <= i && i < len(ds) && ds[i].Compatibility == Breaking
+}
+
+// vs_noBody: not a body parameter on either side (no schema to descend into).
+func vs_noBody(p1, p2 spec.Parameter) bool { return p1.Schema == nil || p2.Schema == nil }
+
+// The C13 catalogue rows for a simple (non-body) parameter whose type and format are
+// unchanged: a constraint is introduced or tightened.
+func vs_sameType(p1, p2 spec.Parameter) bool {
+	return p1.Type == p2.Type && p1.Format == p2.Format
+}
+
+func vs_narrowsArray(p1, p2 spec.Parameter) bool {
+	return vs_tightensMax(p1.MaxItems, p2.MaxItems) || vs_tightensMin(p1.MinItems, p2.MinItems)
+}
+
+func vs_narrowsString(p1, p2 spec.Parameter) bool {
+	return vs_tightensMax(p1.MaxLength, p2.MaxLength) || vs_tightensMin(p1.MinLength, p2.MinLength) || p1.Pattern != p2.Pattern
+}
+
+func vs_narrowsNumber(p1, p2 spec.Parameter) bool {
+	if (!p1.ExclusiveMaximum && p2.ExclusiveMaximum) || (!p1.ExclusiveMinimum && p2.ExclusiveMinimum) {
+		return true
+	}
+	return p1.ExclusiveMaximum == p2.ExclusiveMaximum && p1.ExclusiveMinimum == p2.ExclusiveMinimum &&
+		(vs_tightensMaxF(p1.Maximum, p2.Maximum) || vs_tightensMinF(p1.Minimum, p2.Minimum))
+}
+
+func vs_tightensMax(a, b *int64) bool  { return b != nil && (a == nil || *b < *a) }
+func vs_tightensMin(a, b *int64) bool  { return b != nil && (a == nil || *b > *a) }
+func vs_tightensMaxF(a, b *float64) bool { return b != nil && (a == nil || *b < *a) }
+func vs_tightensMinF(a, b *float64) bool { return b != nil && (a == nil || *b > *a) }
